@@ -162,6 +162,16 @@ def check_run(r, info, ff, opts, tag, n_ends=None, cyclic=False,
         else:
             if n_missed:
                 all_assigned = False
+    # the total the program itself reports (header / returned model)
+    if all_assigned:
+        try:
+            reported = float(r.bm.charge[1])
+        except Exception:  # noqa: BLE001 - absence is not judged here
+            reported = None
+        if reported is not None and abs(reported - total) > 1e-3:
+            viol.append((f"C02/{tag}/{ff}/reported-total-differs-from-atoms",
+                         {"reported": round(reported, 4),
+                          "written_atoms": round(total, 4)}))
     # every residue the harness built must be a residue of the model
     model_keys = {}
     for res, _q, _m in per_res:
@@ -429,6 +439,14 @@ def enumerate_cases(tier, seed):
     for ff in pair_ffs:
         for x, y in pairs:
             cases.append({"mode": "ends", "ff": ff, "x": x, "y": y})
+    if tier == "quick":
+        # hydrogenated first residues (an input amide H must not change the
+        # kind of terminus)
+        for ff in corpus.FFS:
+            for x in corpus.INPUT_NAMES:
+                cases.append({"mode": "grid", "ff": ff, "opts": [],
+                              "desc": {"x": x, "pos": "n",
+                                       "hydrogens": True}})
     if tier != "quick":
         # hydrogenated inputs
         for ff in corpus.FFS:
